@@ -69,11 +69,7 @@ void StatementListExecutor::execute_compound_statement(const ASTNode *node) {
     debug_msg(DebugMsgId::INTERPRETER_COMPOUND_STMT_EXEC,
               node->statements.size());
 
-    bool pushed_scope = false;
-    if (!interpreter_->is_calling_destructor()) {
-        interpreter_->push_destructor_scope();
-        pushed_scope = true;
-    }
+    interpreter_->push_destructor_scope();
 
     auto stmt_positions = interpreter_->current_statement_positions();
     size_t start_index = 0;
@@ -91,36 +87,26 @@ void StatementListExecutor::execute_compound_statement(const ASTNode *node) {
                 interpreter_->execute_statement(node->statements[i].get());
             } catch (const YieldException &e) {
                 (*stmt_positions)[node] = e.is_from_loop ? i : (i + 1);
-                if (pushed_scope) {
-                    interpreter_->pop_destructor_scope();
-                }
+                interpreter_->pop_destructor_scope();
                 throw;
             }
 
             (*stmt_positions)[node] = i + 1;
         }
 
-        if (pushed_scope) {
-            interpreter_->pop_destructor_scope();
-        }
+        interpreter_->pop_destructor_scope();
         clear_entry();
     } catch (const ReturnException &) {
         clear_entry();
-        if (pushed_scope) {
-            interpreter_->pop_destructor_scope();
-        }
+        interpreter_->pop_destructor_scope();
         throw;
     } catch (const BreakException &) {
         clear_entry();
-        if (pushed_scope) {
-            interpreter_->pop_destructor_scope();
-        }
+        interpreter_->pop_destructor_scope();
         throw;
     } catch (const ContinueException &) {
         clear_entry();
-        if (pushed_scope) {
-            interpreter_->pop_destructor_scope();
-        }
+        interpreter_->pop_destructor_scope();
         throw;
     }
 }
